@@ -47,8 +47,15 @@ func vhC16LateHandler() {
 	start := time.Now()
 	hijackMode := vChoose("lateHandlerHijacks", 3) // 0 no, 1 Hijack, 2 Hijack + HijackSetNoResponse
 	hijackRan := false
+	earlyClose := vBool("closeFlagSetBeforeTheTimeout")
 	inner := func(ctx *RequestCtx) {
 		if string(ctx.Path()) == "/slow" {
+			if earlyClose {
+				// what the abandoned handler did to its own response before it was
+				// abandoned does not reach the timeout response either
+				ctx.SetConnectionClose()
+				ctx.Response.Header.Set("X-Late", xs)
+			}
 			if hijackMode > 0 {
 				// asked for before the timeout fires; the request is then abandoned
 				ctx.Hijack(func(c net.Conn) {
